@@ -78,6 +78,11 @@ class _Stop(Exception):
     pass
 
 
+def _dictlike(p):
+    """access path denotes a dict: a dict slot, or an element of the (dict of dicts) _extents table"""
+    return bool(p) and (p[-1] in DICT_SLOTS or (len(p) >= 2 and p[-2] == "_extents" and p[-1] == "values"))
+
+
 class _Walker:
     stop_at = None
 
@@ -103,7 +108,14 @@ class _Walker:
     def rec(self, refs, suffix=()):
         for (r, p) in refs:
             if self.root is None or r == self.root:
-                self.out.add((r, tuple(p) + tuple(suffix)))
+                p = tuple(p)
+                if "items" in p:
+                    # (key, value) pairs consumed as a whole: both components
+                    i = p.index("items")
+                    self.out.add((r, p[:i] + ("keys",) + p[i + 1:] + tuple(suffix)))
+                    self.out.add((r, p[:i] + ("values",) + p[i + 1:] + tuple(suffix)))
+                else:
+                    self.out.add((r, p + tuple(suffix)))
 
     # -- statements ---------------------------------------------------------------
     def block(self, stmts):
@@ -162,6 +174,15 @@ class _Walker:
         if isinstance(t, ast.Name):
             self.env[t.id] = set(refs)
         elif isinstance(t, (ast.Tuple, ast.List)):
+            pairs = {(r, p) for (r, p) in refs if p and p[-1] == "items"}
+            if pairs and len(t.elts) == 2:
+                # for k, v in d.items()
+                self.bind(t.elts[0], {(r, p[:-1] + ("keys",)) for (r, p) in pairs})
+                self.bind(t.elts[1], {(r, p[:-1] + ("values",)) for (r, p) in pairs})
+                rest = set(refs) - pairs
+                if not rest:
+                    return
+                refs = rest
             for e in t.elts:
                 self.bind(e.value if isinstance(e, ast.Starred) else e, {(r, p + ("*",)) for (r, p) in refs})
         elif isinstance(t, (ast.Subscript, ast.Attribute)):
@@ -172,10 +193,12 @@ class _Walker:
     def elems(self, refs, iter_node=None):
         out = set()
         for (r, p) in refs:
-            if p and p[-1] in DICT_SLOTS:
+            if _dictlike(p):
                 out.add((r, p + ("keys",)))
                 self.out.add((r, p + ("keys",))) if (self.root is None or r == self.root) else None
-            elif p and p[-1] in ("keys", "values", "items"):
+            elif p and p[-1] in ("keys", "items"):
+                out.add((r, p))
+            elif p and p[-1] == "values" and not _dictlike(p):
                 out.add((r, p))
             else:
                 out.add((r, p + ("*",)))
@@ -205,7 +228,7 @@ class _Walker:
             self.use(e.slice, consume=True)
             out = set()
             for (r, p) in base:
-                if p and p[-1] in DICT_SLOTS:
+                if _dictlike(p):
                     out.add((r, p + ("values",)))
                 elif p and p[-1] in ("keys",):
                     out.add((r, p))
@@ -328,7 +351,7 @@ class _Walker:
                 return set()
             if n in ("len",):
                 for (r, p) in allrefs:
-                    if p and p[-1] in DICT_SLOTS:
+                    if _dictlike(p):
                         self.rec({(r, p)}, ("len",))
                     else:
                         self.rec({(r, p)}, ("<whole>",))
@@ -337,7 +360,7 @@ class _Walker:
                 out = set()
                 for a in args:
                     for (r, p) in a:
-                        if p and p[-1] in DICT_SLOTS:
+                        if _dictlike(p):
                             out.add((r, p + ("keys",)))
                         else:
                             out.add((r, p))
@@ -374,16 +397,17 @@ class _Walker:
             out = set()
             handled = False
             for (r, p) in base:
-                if p and p[-1] in DICT_SLOTS:
+                if _dictlike(p):
                     handled = True
                     if m in ("keys",):
                         out.add((r, p + ("keys",)))
-                    elif m in ("values", "get", "pop", "__getitem__"):
+                    elif m == "values":
+                        out.add((r, p + ("values",)))
+                    elif m in ("get", "pop", "__getitem__"):
                         out.add((r, p + ("values",)))
                         self.rec({(r, p)}, ("keys",))
                     elif m in ("items",):
-                        out.add((r, p + ("keys",)))
-                        out.add((r, p + ("values",)))
+                        out.add((r, p + ("items",)))
                     elif m == "copy":
                         out.add((r, p))
                     else:
@@ -407,6 +431,9 @@ class _Walker:
                 for g in seen:
                     found = True
                     sub = self.ra.reads(g, g.params()[0], g.cls, self.depth + 1) if g.params() else set()
+                    if not sub:
+                        # recursion cut-off (mutually recursive hash keys): the receiver as a whole
+                        sub = {(None, ("<whole>",))}
                     for (_, sp) in sub:
                         self.rec({(r, p)}, sp)
                         res.add((r, p + tuple(sp)))  # the result is derived from what the method read
